@@ -331,6 +331,103 @@ def teardown_check(ctx, res):
             })
 
 
+# ------------------------------------------------------------------------------------------------
+# the shared passive-port pool: what another session did with it must not change what the next one gets
+# ------------------------------------------------------------------------------------------------
+POOL_FIRSTS = [
+    ("refused-while-every-port-was-busy", ["bind", "USER bar", "PASV", "unbind"], None),
+    ("refused-twice", ["bind", "USER bar", "EPSV", "unbind", "connect", "bind", "USER bar", "PASV", "unbind"], None),
+    ("listener-then-vanish", ["USER bar", "EPSV"], "vanish"),
+    ("listener-then-quit", ["USER bar", "PASV", "QUIT"], None),
+    ("two-passive-commands-in-one-segment", ["USER bar", "PASV\r\nEPSV", "QUIT"], None),
+    ("one-port-busy", ["bind1", "USER bar", "EPSV", "unbind", "QUIT"], None),
+    ("transfer-then-close", ["USER bar", "EPSV", "@data", "LIST", "EPSV"], "close"),
+]
+POOL_PORTS = [41001, 41002]
+
+
+async def _pool_case(loop, first, end, with_first):
+    wd = W.World(loop, [W.UserSpec("bar", None)], server_kwargs={"data_ports": list(POOL_PORTS)})
+    await wd.start()
+    foreign = {}
+    try:
+        wd.set_tree(TREE)
+        if with_first:
+            a = await wd.raw_client()
+            for line in first:
+                if line in ("bind", "bind1"):
+                    for port in POOL_PORTS[: 1 if line == "bind1" else None]:
+                        srv = simnet.MemServer(wd.net, None, wd.net.host, port, wd.net.family)
+                        wd.net.listeners[port] = srv
+                        wd.net.open_listeners.add(srv)
+                        foreign[port] = srv
+                elif line == "unbind":
+                    for port in list(foreign):
+                        foreign.pop(port).close()
+                elif line == "connect":
+                    a = await wd.raw_client()
+                elif line == "@data":
+                    await W.data_connect(wd, a)
+                elif not a.eof:
+                    await W.run_line(wd, a, line.encode())
+                await loop.settle()
+            if end == "vanish":
+                a.vanish()
+            elif end == "close":
+                a.close()
+            await loop.settle()
+            await asyncio.sleep(1.0)
+            await loop.settle()
+        recs = []
+        for k in range(3):  # as many sessions as there are ports, and one more: each must find a port
+            b = await wd.raw_client()
+            for line in ("USER bar", "EPSV" if k % 2 else "PASV", "@data", "LIST", "QUIT"):
+                if line == "@data":
+                    await W.data_connect(wd, b)
+                    continue
+                if b.eof:
+                    recs.append(None)
+                    continue
+                codes, _, _, _ = await W.run_line(wd, b, line.encode())
+                recs.append(codes)
+            await loop.settle()
+        q = wd.server.available_data_ports
+        out = {"recs": recs, "pool": sorted(p for _, p in q._queue)}
+    finally:
+        for f in foreign.values():
+            f.close()
+        try:
+            await wd.stop()
+        except Exception:
+            wd.finish()
+    return out
+
+
+def _pool_job(args):
+    try:
+        return simnet.run(_pool_case, *args)
+    except BaseException as e:  # noqa
+        return "HARNESS-ERROR %s: %s" % (type(e).__name__, e)
+
+
+def pool_check(ctx, res):
+    solo = _pool_job(([], None, False))
+    for name, first, end in POOL_FIRSTS:
+        res.cases += 1
+        res.count("kind=shared-port-pool-then-next-sessions")
+        o = _pool_job((first, end, True))
+        if isinstance(o, str) or isinstance(solo, str):
+            res.disagreements.append({"correspondence": "port-pool harness", "input": name, "impl": o if isinstance(o, str) else solo})
+            continue
+        res.distinct.add(("pool", name))
+        if o != solo:
+            res.oracle_failures.append({
+                "input": {"kind": "pool", "first_session": first, "ends_by": end or "QUIT", "name": name},
+                "what": "after another session (%s) the next sessions get %r; alone they get %r" % (name, o, solo),
+                "signature": "C17:port-pool-use-of-one-session-changes-the-next",
+            })
+
+
 def run_one(spec, skews, latency=0.0, disturb=None):
     loop = SC.ILoop()
     asyncio.set_event_loop(loop)
@@ -442,6 +539,7 @@ def _check(ctx):
                 break
     lockstep_check(ctx, res)
     teardown_check(ctx, res)
+    pool_check(ctx, res)
     res.samples = [{"sessions": SPECS[0], "start_skews": [0, 17], "backend_latency": 0.0}, {"sessions": SPECS[4], "start_skews": [0, 8, 11], "backend_latency": 0.003}]
     return res
 
@@ -470,6 +568,12 @@ def replay(ctx, doc):
     if inp.get("kind") == "teardown":
         o = _teardown_job((inp["first_session"], None if inp["ends_by"] == "QUIT" else inp["ends_by"], True))
         solo = _teardown_job(([], None, False))
+        print("after the first session:", o)
+        print("alone                  :", solo)
+        return o != solo
+    if inp.get("kind") == "pool":
+        o = _pool_job((inp["first_session"], None if inp["ends_by"] == "QUIT" else inp["ends_by"], True))
+        solo = _pool_job(([], None, False))
         print("after the first session:", o)
         print("alone                  :", solo)
         return o != solo
